@@ -148,6 +148,45 @@ func ZZ_C13_will(a []int) {
 	zzAssert(zzSharedWrites() == 0, "monitor: read-only use of a shared will message writes to shared memory")
 }
 
+// zzWillMod changes an attached will message through its own setters before
+// anything is shared (mode 1 payload, 2 topic, 3 flags, 4 properties).
+func zzWillMod(w *Publish, mode int) {
+	switch mode {
+	case 1:
+		w.SetPayload(zzBytes("np", 2))
+	case 2:
+		w.SetTopicName(string(zzBytes("nt", 2)))
+	case 3:
+		w.SetQoS(2)
+		w.SetRetain(true)
+		w.SetDuplicate(true)
+	case 4:
+		w.SetContentType(string(zzBytes("nc", 2)))
+		w.AddUserProp("k", "v")
+	}
+}
+
+// ZZ_C13_willmod: a[0] = modification of the will message after SetWill and
+// before sharing (the CONNECT then holds state that differs from the will's),
+// a[1:] = shape. Read-only operations must still not write.
+func ZZ_C13_willmod(a []int) {
+	abs := zzGen(zzShapeOf(a[1:]))
+	w := zzBuildWill(abs)
+	c := NewConnect()
+	c.SetWill(w)
+	zzWillMod(w, a[0])
+	zzMarkShared()
+	var s1, s2 zzSink
+	c.WriteTo(&s1)
+	zzAssert(zzSharedWrites() == 0, "monitor: WriteTo of a CONNECT whose will message was changed after SetWill writes to shared memory")
+	w.WriteTo(&s2)
+	zzReadOnlyOps(c)
+	zzReadOnlyOps(w)
+	c.WriteTo(&s1)
+	zzReach("willmod")
+	zzAssert(zzSharedWrites() == 0, "monitor: read-only use of a shared will message writes to shared memory")
+}
+
 // ZZ_C13_read: ReadPacket of a short frame (type nibble a[0], a[1] arbitrary
 // body bytes) while everything that existed before is shared: decoding on a
 // private stream must not write to shared or package-level memory.
